@@ -244,8 +244,8 @@ type answerer struct {
 	pq   middleware.Queryer
 }
 
-func (a *answerer) Name() string                          { return a.name }
-func (a *answerer) SetQueryer(q middleware.Queryer)       { a.q = q }
+func (a *answerer) Name() string                            { return a.name }
+func (a *answerer) SetQueryer(q middleware.Queryer)         { a.q = q }
 func (a *answerer) SetPrefetchQueryer(q middleware.Queryer) { a.pq = q }
 func (a *answerer) ServeDNS(ctx context.Context, ch *middleware.Chain) {
 	a.n++
@@ -311,16 +311,16 @@ func quiet() {
 
 func (c *concCfg) config(scratch string) *config.Config {
 	cfg := &config.Config{ //nolint:gosec
-		Bind:         "127.0.0.1:0",
-		Expire:       600,
-		CacheSize:    1024,
-		CookieSecret: "6c6f6f6b61686172646c6f6f6b6168617264",
-		Chaos:        true,
-		Nullroute:    "0.0.0.0",
-		Nullroutev6:  "::0",
-		Blocklist:    []string{blockName},
-		BlockListDir: filepath.Join(scratch, "c17-blocklists"),
-		Directory:    scratch,
+		Bind:          "127.0.0.1:0",
+		Expire:        600,
+		CacheSize:     1024,
+		CookieSecret:  "6c6f6f6b61686172646c6f6f6b6168617264",
+		Chaos:         true,
+		Nullroute:     "0.0.0.0",
+		Nullroutev6:   "::0",
+		Blocklist:     []string{blockName},
+		BlockListDir:  filepath.Join(scratch, "c17-blocklists"),
+		Directory:     scratch,
 		ReflexEnabled: true,
 	}
 	cfg.QueryTimeout.Duration = 10 * time.Second
